@@ -371,6 +371,11 @@ CORPUS = P.get("corpus") or [
     "SELECT IF(a, b FROM t; SELECT 1",
     "WITH x AS (SELECT 1 SELECT * FROM x",
     "SELECT a IN (1, 2 FROM t",
+    # a speculative branch fails first, a genuine error follows (in the same or in the next statement)
+    "SELECT a limit FROM t; SELECT 1 +",
+    "SELECT a limit, CAST(b AS) FROM t WHERE",
+    "SELECT a offset FROM t; SELECT CAST(x AS) FROM",
+    "SELECT 1 +; SELECT a limit FROM t",
 ]
 _CTOKS = [_D.tokenize(q) for q in CORPUS]
 
